@@ -1,6 +1,7 @@
 import TunnoxModel.Driver.Util
 import TunnoxModel.Driver.C01
 import TunnoxModel.Model.C05
+import TunnoxModel.Gen.C05
 namespace Tunnox.Drv.C05
 open Tunnox.C05
 
@@ -17,8 +18,32 @@ def parseObs (ts : List String) : Obs :=
     | _, _ => ⟨false, 0, 0⟩
   | _ => ⟨false, 0, 0⟩
 
-def runModel (ts : List String) : String := Tunnox.Drv.C01.runRawModel ts
+/-- Dispatcher cases: `disp <type byte> …` — the model answer is the translated routing table of
+`SessionManager.HandlePacket`: the `default` branch returns the "unhandled packet type" error,
+every other branch hands the packet to a handler (whose answer, error or reply, is not modelled). -/
+def dispModel (ts : List String) : String :=
+  match ts with
+  | ty :: _ =>
+    match ty.toNat? with
+    | some t => if Gen.HandlePacket_route t == "default" then "res unhandled" else "res handled"
+    | none => "bad-case"
+  | _ => "bad-case"
 
-def runHolds (_caseToks obsToks : List String) : String := boolStr (holds (parseObs obsToks))
+def runModel (ts : List String) : String :=
+  match ts with
+  | "disp" :: rest => dispModel rest
+  | _ => Tunnox.Drv.C01.runRawModel ts
+
+/-- Dispatcher observation: the property only asks for "an error or a reply rather than crashing". -/
+def holdsDisp (obsToks : List String) : Bool :=
+  match obsToks with
+  | ["res", "handled"] => true
+  | ["res", "unhandled"] => true
+  | _ => false          -- panic …, timeout, crash
+
+def runHolds (caseToks obsToks : List String) : String :=
+  match caseToks with
+  | "disp" :: _ => boolStr (holdsDisp obsToks)
+  | _ => boolStr (holds (parseObs obsToks))
 
 end Tunnox.Drv.C05
